@@ -55,6 +55,16 @@ const A_RDMO: u64 = 5;
 const A_DMO: u64 = 6;
 const A_MO: u64 = 7;
 const A_OTHER: u64 = 9;
+/// OAuth2RsClaimMap is a map claim name -> group uuid -> values: one modelled attribute per claim name
+const A_CLAIM0: u64 = 10;
+const A_CLAIM2: u64 = 12;
+const CLAIM_NAMES: [&str; 3] = ["ca", "cb", "cc"];
+fn is_claim(a: u64) -> bool {
+    (A_CLAIM0..=A_CLAIM2).contains(&a)
+}
+fn claim_name(a: u64) -> String {
+    CLAIM_NAMES[(a - A_CLAIM0) as usize].to_string()
+}
 
 fn attr_code(a: &Attribute) -> u64 {
     match a {
@@ -76,6 +86,7 @@ fn code_attr(c: u64) -> Attribute {
         A_REFERS => Attribute::Refers,
         A_SCOPE => Attribute::OAuth2RsScopeMap,
         A_SUP => Attribute::OAuth2RsSupScopeMap,
+        a if is_claim(a) => Attribute::OAuth2RsClaimMap,
         _ => Attribute::RecycledDirectMemberOf,
     }
 }
@@ -207,6 +218,25 @@ async fn observe(qs: &QueryServer, w: &World) -> (Vec<Obs>, u64) {
             o.st = if tomb { St::Tomb } else if rec { St::Rec } else { St::Live };
             for a in &ref_attrs {
                 if let Some(vs) = e.get_ava_set(a) {
+                    if *a == Attribute::OAuth2RsClaimMap {
+                        // "<claim name>: <group uuid> \"<values>\"" per (claim name, group)
+                        for line in vs.to_proto_string_clone_iter() {
+                            let (name, rest) = line.split_once(": ").expect("claim map proto form");
+                            let t = Uuid::parse_str(rest.split(' ').next().expect("uuid")).expect("claim map uuid");
+                            let code = CLAIM_NAMES.iter().position(|n| *n == name).map(|i| A_CLAIM0 + i as u64).unwrap_or(A_OTHER);
+                            match w.idx(&t) {
+                                Some(j) => {
+                                    o.refs.entry(code).or_default().insert(j);
+                                }
+                                None => {
+                                    if !live_set.contains(&t) {
+                                        o.ext += 1;
+                                    }
+                                }
+                            }
+                        }
+                        continue;
+                    }
                     if let Some(it) = vs.as_ref_uuid_iter() {
                         for t in it {
                             match w.idx(&t) {
@@ -253,10 +283,10 @@ fn c_obs(o: &Obs) -> String {
     )
 }
 fn t_refs(r: &Refs) -> String {
-    let names = ["m", "e", "r", "s", "S", "rd", "d", "mo", "?", "x"];
+    let names = ["m", "e", "r", "s", "S", "rd", "d", "mo", "?", "x", "ca", "cb", "cc"];
     r.iter()
         .filter(|(_, s)| !s.is_empty())
-        .map(|(a, s)| format!("{}{:?}", names[(*a as usize).min(9)], s.iter().collect::<Vec<_>>()))
+        .map(|(a, s)| format!("{}{:?}", names[(*a as usize).min(12)], s.iter().collect::<Vec<_>>()))
         .collect::<Vec<_>>()
         .join("")
 }
@@ -295,6 +325,7 @@ fn err_code(e: &OperationError) -> u64 {
 fn ref_value(a: u64, u: Uuid) -> Value {
     match a {
         A_SCOPE | A_SUP => Value::new_oauthscopemap(u, [String::from("read")].into_iter().collect()).expect("scope"),
+        a if is_claim(a) => Value::new_oauthclaimmap(claim_name(a), u, [String::from("v")].into_iter().collect()).expect("claim"),
         _ => Value::Refer(u),
     }
 }
@@ -348,6 +379,17 @@ fn modlist(w: &World, mods: &[Mod]) -> ModifyList<ModifyInvalid> {
     for m in mods {
         match m {
             Mod::Add(a, t) => v.push(Modify::Present(code_attr(*a), ref_value(*a, w.uuids[*t]))),
+            // claim map: the edits address ONE claim name (remove the group from it / remove the claim name)
+            Mod::Del(a, t) if is_claim(*a) => {
+                v.push(Modify::Removed(code_attr(*a), PartialValue::OauthClaim(claim_name(*a), w.uuids[*t])))
+            }
+            Mod::Set(a, t) if is_claim(*a) => {
+                v.push(Modify::Removed(code_attr(*a), PartialValue::new_iutf8(&claim_name(*a))));
+                v.push(Modify::Present(code_attr(*a), ref_value(*a, w.uuids[*t])));
+            }
+            Mod::Purge(a) if is_claim(*a) => {
+                v.push(Modify::Removed(code_attr(*a), PartialValue::new_iutf8(&claim_name(*a))))
+            }
             Mod::Del(a, t) => v.push(Modify::Removed(code_attr(*a), PartialValue::Refer(w.uuids[*t]))),
             Mod::Set(a, t) => {
                 v.push(Modify::Purged(code_attr(*a)));
@@ -434,7 +476,7 @@ fn kind_attrs(k: Kind) -> Vec<u64> {
         Kind::User => vec![A_EMB],
         Kind::Group => vec![A_MEMBER, A_MEMBER, A_MEMBER, A_EMB],
         Kind::Dep => vec![A_REFERS, A_REFERS, A_EMB],
-        Kind::Client => vec![A_SCOPE, A_SCOPE, A_SUP, A_EMB],
+        Kind::Client => vec![A_SCOPE, A_SUP, A_CLAIM0, A_CLAIM0 + 1, A_CLAIM2, A_EMB],
     }
 }
 
@@ -463,6 +505,14 @@ fn gen_refs(rng: &mut Rng, kinds: &[Kind], i: usize, pool: &[usize]) -> Refs {
                 if rng.chance(1, 3) {
                     r.entry(if rng.chance(3, 4) { A_SCOPE } else { A_SUP }).or_default().insert(*t as u64);
                 }
+                // claim maps: often the SAME group under two or three claim names
+                if rng.chance(1, 3) {
+                    let k = rng.range(1, 3);
+                    let first = rng.below(3);
+                    for j in 0..k {
+                        r.entry(A_CLAIM0 + (first + j) % 3).or_default().insert(*t as u64);
+                    }
+                }
             }
         }
         Kind::User => {}
@@ -475,7 +525,7 @@ fn gen_refs(rng: &mut Rng, kinds: &[Kind], i: usize, pool: &[usize]) -> Refs {
 
 fn gen_mod(rng: &mut Rng, kinds: &[Kind], x: usize, n: usize) -> Mod {
     let attrs = kind_attrs(kinds[x]);
-    let a = if rng.chance(1, 12) { *rng.pick(&[A_MEMBER, A_REFERS, A_SCOPE]) } else { *rng.pick(&attrs) };
+    let a = if rng.chance(1, 12) { *rng.pick(&[A_MEMBER, A_REFERS, A_SCOPE, A_CLAIM0]) } else { *rng.pick(&attrs) };
     let mut t = rng.below(n as u64) as usize;
     if a == A_MEMBER {
         // keep group nesting acyclic
@@ -509,6 +559,12 @@ fn gen_op(rng: &mut Rng, kinds: &[Kind], cur: &[Obs], allow_purge: bool) -> Op {
     let k = rng.below(100);
     if k < 32 {
         let x = if !live.is_empty() && rng.chance(9, 10) { *rng.pick(&live) } else { rng.below(n as u64) as usize };
+        if kinds[x] == Kind::Client && rng.chance(1, 3) {
+            let t = rng.below(n as u64) as usize;
+            let k = rng.range(2, 3);
+            let first = rng.below(3);
+            return Op::Modify(x, (0..k).map(|j| Mod::Add(A_CLAIM0 + (first + j) % 3, t)).collect());
+        }
         let m = rng.range(1, 2) as usize;
         Op::Modify(x, (0..m).map(|_| gen_mod(rng, kinds, x, n)).collect())
     } else if k < 54 {
@@ -859,7 +915,7 @@ fn main() {
     let mut sink = Sink::new(&args, "KV.C16.Model", 12);
     sink.rule = "hist: random histories (len 6..18 quick / 6..30 thorough) of create (1-2 entries per batch, random references to ANY \
 universe entry in any state, batch mates included) / modify (1-2 reference edits: add, remove, set, purge on Member, EntryManagedBy, \
-Refers, OAuth2RsScopeMap, OAuth2RsSupScopeMap; 1 in 12 on an attribute the class does not allow) / delete / revive (as `admin` through \
+Refers, OAuth2RsScopeMap, OAuth2RsSupScopeMap, OAuth2RsClaimMap under three claim names — a third of the client edits map ONE target under 2-3 claim names; 1 in 12 on an attribute the class does not allow) / delete / revive (as `admin` through \
 ReviveRecycledEvent::from_parts) / purge_recycled / purge_tombstones over 1-3 persons, 2-4 groups (acyclic nesting), 1-3 ClientCertificate \
 dependents (Refers) and 1-2 OAuth2 clients (scope maps -> groups or anything) on a real in-memory QueryServer; one write transaction per op; \
 every tracked entry (all schema reference types) read back after every transaction plus a whole-database dangling scan. \
